@@ -99,9 +99,9 @@ impl Prop for C01 {
     fn rule(&self) -> String {
         "case = (entry point incl. engine / gather settings, retry count, menu); the reference server is in its seed state \
          (all optional parts, 2 players, 2 rules, challenge round, lists split in two). At every receive the menu is: 0 the \
-         well-formed datagram; every proper prefix; every single-byte substitution at every offset with {00,01,02,0A,5C,7F,80,FE,FF}; \
+         well-formed datagram; every proper prefix; every single-byte substitution at every offset with {00,01,02,0A,5C,7F,80,FE,FF}; the valid two-byte UTF-8 character C3 A9 written over every pair of adjacent bytes; \
          every decimal number replaced by each of 7 boundary texts; every byte string of length <= 3 (quick) / 4 (thorough) over \
-         {00,01,0A,5C,80,FE,FF} appended to each header prefix; format-specific structural extremes; three 65507-byte datagrams; \
+         {00,01,0A,5C,80,C3,FE,FF} appended to each header prefix; format-specific structural extremes; three 65507-byte datagrams; \
          timeout; TCP connects may be refused. X(1) = all executions with one deviation (complete); thorough adds X(2) with the \
          second deviation from the reduced menu. Every GAMES entry through the generic dispatch and every macro-generated \
          games::<id>::query run X(1) with the reduced menu (prefixes + extremes + oversize + timeout). Oracle: the call returns \
